@@ -1,4 +1,245 @@
-(* placeholder *)
+(* JPEG 2000 arithmetic / geometry / layer bookkeeping (area j2kgeo; properties C04, C19, C05).
+   Encodings: ints "1,2,-3" ("_" empty), bytes hex ("_" empty), lists of lists joined by ";",
+   bools 0/1, outcomes ok:<payload> / err / panic. *)
+open BinNums
 open Conv
-let register (reg : string -> (string list -> string) -> unit) : unit = ()
+
+let zi s = z_of_int (int_of_string s)
+let iz = int_of_z
+let b01 = bool_of_string01
+let nat_z s = nat_of_int (int_of_string s)
+
+let split_nonempty c s = if s = "" || s = "_" then [] else String.split_on_char c s
+
+let rect_str ((((x0, y0), x1), y1) : GeoModel.rect) : string =
+  Printf.sprintf "%d,%d,%d,%d" (iz x0) (iz y0) (iz x1) (iz y1)
+
+let band_str (b : GeoModel.band) : string =
+  Printf.sprintf "%d,%d,%d,%d,%d" (iz b.GeoModel.b_id) (iz b.GeoModel.b_w) (iz b.GeoModel.b_h)
+    (iz b.GeoModel.b_ox) (iz b.GeoModel.b_oy)
+
+let bands_str (l : GeoModel.band list) : string =
+  if l = [] then "_" else String.concat ";" (L.map band_str l)
+
+let block_str (c : GeoModel.cblock) : string =
+  Printf.sprintf "%d,%d,%d,%d,%d,%d,%d:%s" (iz c.GeoModel.cb_gx0) (iz c.GeoModel.cb_gy0)
+    (iz c.GeoModel.cb_w) (iz c.GeoModel.cb_h) (iz c.GeoModel.cb_cbx) (iz c.GeoModel.cb_cby)
+    (iz c.GeoModel.cb_band) (string_of_zlist c.GeoModel.cb_data)
+
+let blocks_str (l : GeoModel.cblock list) : string =
+  if l = [] then "_" else String.concat ";" (L.map block_str l)
+
+let outcome_ints (o : coq_Z list Base.outcome) : string =
+  match o with
+  | Base.Ok l -> "ok:" ^ string_of_zlist l
+  | Base.Err -> "err" | Base.Panic -> "panic" | Base.OutOfFuel -> "fuel"
+
+(* passes "r0,a0,r1,a1,..." -> (Rate, ActualBytes) list *)
+let passes_of_string (s : string) : (coq_Z * coq_Z) list =
+  let rec pair l = match l with a :: b :: r -> (a, b) :: pair r | _ -> [] in
+  pair (zlist_of_string s)
+
+let layer_data_str (ld : coq_Z list list) : string =
+  if ld = [] then "-" else String.concat ";" (L.map hex_of_bytes ld)
+
+let fclass_of_string s = match s with
+  | "neg" -> GeoLayers.FNeg | "zero" -> GeoLayers.FZero | "pos" -> GeoLayers.FPos | _ -> GeoLayers.FNaN
+let string_of_fclass c = match c with
+  | GeoLayers.FNeg -> "neg" | GeoLayers.FZero -> "zero" | GeoLayers.FPos -> "pos" | GeoLayers.FNaN -> "nan"
+
+let bools_str (l : bool list) : string =
+  if l = [] then "_" else String.concat "," (L.map string01_of_bool l)
+
+let register (reg : string -> (string list -> string) -> unit) : unit =
+  (* ---------------- tiles ---------------- *)
+  (* geo_tiles W H tw th -> ntx,nty|enc rects|layout rects (idx -1, 0..n-1, n)|decoder rects *)
+  reg "geo_tiles" (fun a -> match a with
+    | [w; h; tw; th] ->
+      let w = zi w and h = zi h and tw = zi tw and th = zi th in
+      let ntx = GeoModel.enc_num_tiles w tw and nty = GeoModel.enc_num_tiles h th in
+      let n = iz ntx * iz nty in
+      let idxs = L.init (max n 0) (fun i -> z_of_int i) in
+      let tl = GeoModel.new_tile_layout w h Z0 Z0 tw th Z0 Z0 in
+      let enc = L.map (fun i -> rect_str (GeoModel.enc_tile_bounds w h i tw th ntx)) idxs in
+      let lay = L.map (fun i -> rect_str (GeoModel.layout_tile_bounds tl i))
+          (z_of_int (-1) :: idxs @ [z_of_int n]) in
+      let dec = L.map (fun i -> rect_str (GeoModel.dec_tile_bounds i w h Z0 Z0 tw th Z0 Z0)) idxs in
+      Printf.sprintf "%d,%d|%s|%d:%s|%s" (iz ntx) (iz nty) (String.concat ";" enc)
+        (iz (GeoModel.tile_count tl)) (String.concat ";" lay) (String.concat ";" dec)
+    | _ -> "?");
+  (* geo_layout Xsiz Ysiz XOsiz YOsiz XTsiz YTsiz XTOsiz YTOsiz -> count:rects(idx -1..count) *)
+  reg "geo_layout" (fun a -> match a with
+    | [xs; ys; xo; yo; xt; yt; xto; yto] ->
+      let tl = GeoModel.new_tile_layout (zi xs) (zi ys) (zi xo) (zi yo) (zi xt) (zi yt) (zi xto) (zi yto) in
+      let n = iz (GeoModel.tile_count tl) in
+      let idxs = L.init (max (n + 2) 1) (fun i -> z_of_int (i - 1)) in
+      Printf.sprintf "%d,%d,%d,%d:%s" (iz tl.GeoModel.tl_imageWidth) (iz tl.GeoModel.tl_imageHeight)
+        (iz tl.GeoModel.tl_numTilesX) (iz tl.GeoModel.tl_numTilesY)
+        (String.concat ";" (L.map (fun i -> rect_str (GeoModel.layout_tile_bounds tl i)) idxs))
+    | _ -> "?");
+  (* geo_tile_rt W H tw th data -> tiles "d;d;..." | outcome of reassembly *)
+  reg "geo_tile_rt" (fun a -> match a with
+    | [w; h; tw; th; d] ->
+      let w = zi w and h = zi h and tw = zi tw and th = zi th and img = zlist_of_string d in
+      let tiles = L.map (GeoModel.extract_tile img w) (GeoModel.enc_tiles w h tw th) in
+      Printf.sprintf "%s|%s" (String.concat ";" (L.map string_of_zlist tiles))
+        (outcome_ints (GeoModel.tile_roundtrip img w h tw th))
+    | _ -> "?");
+  (* geo_assemble_tile W H tw th idx acc tile -> outcome *)
+  reg "geo_assemble_tile" (fun a -> match a with
+    | [w; h; tw; th; idx; acc; tile] ->
+      let tl = GeoModel.new_tile_layout (zi w) (zi h) Z0 Z0 (zi tw) (zi th) Z0 Z0 in
+      outcome_ints (GeoModel.assemble_tile tl (zlist_of_string acc) (zi idx) (zlist_of_string tile))
+    | _ -> "?");
+  (* ---------------- bands ---------------- *)
+  (* geo_parity v -> split(v,even),split(v,odd),next(v),even01 *)
+  reg "geo_parity" (fun a -> match a with
+    | [v] -> let v = zi v in
+      Printf.sprintf "%d,%d,%d,%s" (iz (GeoModel.split_len v true)) (iz (GeoModel.split_len v false))
+        (iz (GeoModel.next_coord_z v)) (string01_of_bool (GeoModel.is_even_z v))
+    | _ -> "?");
+  (* geo_bands w h x0 y0 levels maxres -> per res 0..maxres, joined by '#':
+       encW,encH/enc bands/decW,decH,decX0,decY0/dec bands *)
+  reg "geo_bands" (fun a -> match a with
+    | [w; h; x0; y0; lv; mr] ->
+      let w = zi w and h = zi h and x0 = zi x0 and y0 = zi y0 and lv = zi lv in
+      String.concat "#" (L.init (int_of_string mr + 1) (fun r ->
+        let r = z_of_int r in
+        let (ew, eh) = GeoModel.enc_res_dims w h x0 y0 lv r in
+        let ((((dw, dh), dx), dy), db) = GeoModel.dec_band_infos w h x0 y0 lv r in
+        Printf.sprintf "%d,%d/%s/%d,%d,%d,%d/%s" (iz ew) (iz eh)
+          (bands_str (GeoModel.enc_band_infos w h x0 y0 lv r)) (iz dw) (iz dh) (iz dx) (iz dy) (bands_str db)))
+    | _ -> "?");
+  (* geo_subbands w h x0 y0 levels res data -> "b,w,h,ox,oy:data;..." *)
+  reg "geo_subbands" (fun a -> match a with
+    | [w; h; x0; y0; lv; r; d] ->
+      let sbs = GeoModel.enc_subbands (zlist_of_string d) (zi w) (zi h) (zi x0) (zi y0) (zi lv) (zi r) in
+      String.concat ";" (L.map (fun (b, bd) -> band_str b ^ ":" ^ string_of_zlist bd) sbs)
+    | _ -> "?");
+  (* ---------------- code-blocks ---------------- *)
+  (* geo_partition bid bw bh box boy cbw cbh data -> blocks *)
+  reg "geo_partition" (fun a -> match a with
+    | [bid; bw; bh; box; boy; cbw; cbh; d] ->
+      let b = { GeoModel.b_id = zi bid; b_w = zi bw; b_h = zi bh; b_ox = zi box; b_oy = zi boy } in
+      blocks_str (GeoModel.enc_partition (b, zlist_of_string d) (zi cbw) (zi cbh))
+    | _ -> "?");
+  (* geo_blocks w h x0 y0 levels cbw cbh data -> encoder blocks | decoder grid | reassembled *)
+  reg "geo_blocks" (fun a -> match a with
+    | [w; h; x0; y0; lv; cbw; cbh; d] ->
+      let w = zi w and h = zi h and x0 = zi x0 and y0 = zi y0 and lv = zi lv in
+      let cbw = zi cbw and cbh = zi cbh in
+      let bs = GeoModel.enc_all_blocks (zlist_of_string d) w h x0 y0 lv cbw cbh in
+      let grid = GeoModel.dec_grid w h x0 y0 lv cbw cbh in
+      let gs = if grid = [] then "_" else String.concat ";" (L.map (fun g ->
+        Printf.sprintf "%d,%d,%d,%d,%d,%d" (iz g.GeoModel.db_idx) (iz g.GeoModel.db_x0) (iz g.GeoModel.db_y0)
+          (iz g.GeoModel.db_x1) (iz g.GeoModel.db_y1) (iz g.GeoModel.db_band)) grid) in
+      Printf.sprintf "%s|%s|%s" (blocks_str bs) gs
+        (string_of_zlist (GeoModel.dec_assemble w h (GeoModel.blocks_for_assembly bs)))
+    | _ -> "?");
+  (* geo_assemble w h blocks("x0,y0,x1,y1:coeffs;...") -> ints *)
+  reg "geo_assemble" (fun a -> match a with
+    | [w; h; bl] ->
+      let blocks = L.map (fun s ->
+        match String.split_on_char ':' s with
+        | [r; c] -> (match zlist_of_string r with
+            | [x0; y0; x1; y1] -> ((((x0, y0), x1), y1), zlist_of_string c)
+            | _ -> failwith "rect")
+        | _ -> failwith "block") (split_nonempty ';' bl) in
+      string_of_zlist (GeoModel.dec_assemble (zi w) (zi h) blocks)
+    | _ -> "?");
+  (* ---------------- samples ---------------- *)
+  (* geo_convert numPixels comps P signed hexbytes -> err | comp;comp;... (after level shift) *)
+  reg "geo_convert" (fun a -> match a with
+    | [n; c; p; s; hx] ->
+      (match GeoModel.convert_pixel_data (zi n) (zi c) (zi p) (b01 s) (bytes_of_hex hx) with
+       | Base.Ok d -> "ok:" ^ String.concat ";" (L.map string_of_zlist (GeoModel.level_shift_all (zi p) (b01 s) d))
+       | Base.Err -> "err" | Base.Panic -> "panic" | Base.OutOfFuel -> "fuel")
+    | _ -> "?");
+  (* geo_getpixels numPixels comps P signed comp;comp;... -> hex | panic (inverse shift first) *)
+  reg "geo_getpixels" (fun a -> match a with
+    | [n; c; p; s; d] ->
+      let data = L.map zlist_of_string (String.split_on_char ';' d) in
+      if not (GeoModel.pixel_data_in_range (zi n) (zi c) data) then "panic" else
+      hex_of_bytes (GeoModel.get_pixel_data (zi n) (zi c) (zi p) (b01 s)
+                      (GeoModel.level_unshift_all (zi p) (b01 s) data))
+    | _ -> "?");
+  (* geo_pack P v0,v1,... -> hex of the property's container for each value *)
+  reg "geo_pack" (fun a -> match a with
+    | [p; vs] -> hex_of_bytes (L.concat (L.map (GeoModel.pack_sample (zi p)) (zlist_of_string vs)))
+    | _ -> "?");
+  (* ---------------- layers ---------------- *)
+  (* geo_finalize rd01 passes cd(hex|nil) numLayers row append01 existingPassLengths
+       -> panic | none | lp|ld|pl|contrib per layer 0..numLayers|passlens per layer|prev,total per layer *)
+  reg "geo_finalize" (fun a -> match a with
+    | [rd; ps; cd; nl; row; ap; epl] ->
+      let passes = passes_of_string ps in
+      let cdo = if cd = "nil" then None else Some (bytes_of_hex cd) in
+      let nlz = zi nl in
+      let f = if b01 rd then GeoLayers.finalize_rd_block else GeoLayers.finalize_block in
+      (match f passes cdo nlz (zlist_of_string row) (b01 ap) with
+       | Base.Panic -> "panic" | Base.Err -> "err" | Base.OutOfFuel -> "fuel"
+       | Base.Ok None -> "none"
+       | Base.Ok (Some (lp, ld)) ->
+         let pl = GeoLayers.init_pass_lengths (zlist_of_string epl) passes in
+         let data = match cdo with Some d -> d | None -> [] in
+         let npt = z_of_int (L.length passes) in
+         let layers = L.init (int_of_string nl + 1) (fun i -> z_of_int i) in
+         let contrib = L.map (fun l ->
+           let ((incl, np), d) = GeoLayers.layer_contribution (Some ld) lp data npt l in
+           Printf.sprintf "%s,%d,%s" (string01_of_bool incl) (iz np) (hex_of_bytes d)) layers in
+         let plens = L.map (fun l ->
+           match GeoLayers.layer_pass_lengths false lp pl l with
+           | Base.Ok None -> "nil" | Base.Ok (Some x) -> string_of_zlist x | _ -> "panic") layers in
+         let pt = L.map (fun l ->
+           let ((_, np), _) = GeoLayers.layer_contribution (Some ld) lp data npt l in
+           let (p, t) = GeoLayers.prev_and_total_passes false lp npt l np in
+           Printf.sprintf "%d,%d" (iz p) (iz t)) layers in
+         Printf.sprintf "%s|%s|%s|%s|%s|%s|%s" (string_of_zlist lp) (layer_data_str ld) (string_of_zlist pl)
+           (String.concat ";" contrib) (String.concat ";" plens) (String.concat ";" pt)
+           (string_of_zlist (GeoLayers.build_pass_lengths Z0 pl)))
+    | _ -> "?");
+  (* geo_contrib_nil data(hex) numPassesTotal layer newPasses -> incl,np,hex|prev,total
+     (LayerData == nil, LayerPasses == nil: single-layer path) *)
+  reg "geo_contrib_nil" (fun a -> match a with
+    | [d; npt; l; np] ->
+      let ((incl, n), dd) = GeoLayers.layer_contribution None [] (bytes_of_hex d) (zi npt) (zi l) in
+      let (p, t) = GeoLayers.prev_and_total_passes true [] (zi npt) (zi l) (zi np) in
+      Printf.sprintf "%s,%d,%s|%d,%d" (string01_of_bool incl) (iz n) (hex_of_bytes dd) (iz p) (iz t)
+    | _ -> "?");
+  (* geo_init_rd numLayers appendLL lossless -> nl,append01 *)
+  reg "geo_init_rd" (fun a -> match a with
+    | [nl; ap; ll] ->
+      let (n, b) = GeoLayers.init_rd_layer_config (zi nl) (b01 ap) (b01 ll) in
+      Printf.sprintf "%d,%s" (iz n) (string01_of_bool b)
+    | _ -> "?");
+  (* ---------------- parameters ---------------- *)
+  (* geo_params numLevels allowMCT rate levels prog numLayers trclass usePCRD appendLL
+       -> validated | configured *)
+  reg "geo_params" (fun a -> match a with
+    | [nlv; mct; rate; levels; prog; nly; tr; pcrd; ap] ->
+      let p = { GeoLayers.lp_NumLevels = zi nlv; lp_AllowMCT = b01 mct; lp_Rate = zi rate;
+                lp_RateLevels = zlist_of_string levels; lp_Prog = zi prog; lp_NumLayers = zi nly;
+                lp_TargetRatio = fclass_of_string tr; lp_UsePCRDOpt = b01 pcrd; lp_AppendLL = b01 ap } in
+      let v = GeoLayers.validate p in
+      let e = GeoLayers.configure v in
+      Printf.sprintf "%d,%s,%d,%s,%d,%d,%s,%s,%s|%d,%d,%d,%s,%s,%s,%s,%s,%s,%s"
+        (iz v.GeoLayers.lp_NumLevels) (string01_of_bool v.GeoLayers.lp_AllowMCT) (iz v.GeoLayers.lp_Rate)
+        (string_of_zlist v.GeoLayers.lp_RateLevels) (iz v.GeoLayers.lp_Prog) (iz v.GeoLayers.lp_NumLayers)
+        (string_of_fclass v.GeoLayers.lp_TargetRatio) (string01_of_bool v.GeoLayers.lp_UsePCRDOpt)
+        (string01_of_bool v.GeoLayers.lp_AppendLL)
+        (iz e.GeoLayers.ep_NumLevels) (iz e.GeoLayers.ep_Prog) (iz e.GeoLayers.ep_NumLayers)
+        (string_of_fclass e.GeoLayers.ep_TargetRatio) (string01_of_bool e.GeoLayers.ep_UsePCRDOpt)
+        (string01_of_bool e.GeoLayers.ep_EnableMCT) (string01_of_bool e.GeoLayers.ep_AppendLL)
+        (string01_of_bool e.GeoLayers.ep_Lossless) (bools_str e.GeoLayers.ep_LayerRates)
+        (string01_of_bool (GeoLayers.uses_rate_control e))
+    | _ -> "?");
+  (* geo_layers_from rate levels -> n ; geo_layer_rates rate levels append01 -> bools *)
+  reg "geo_layers_from" (fun a -> match a with
+    | [r; l] -> string_of_int (iz (GeoLayers.layers_from_rate_levels (zi r) (zlist_of_string l)))
+    | _ -> "?");
+  reg "geo_layer_rates" (fun a -> match a with
+    | [r; l; ap] -> bools_str (GeoLayers.open_jpeg_layer_rates (zi r) (zlist_of_string l) (b01 ap))
+    | _ -> "?");
+  ()
+
 let () = registrars := register :: !registrars
